@@ -221,3 +221,37 @@ func (e *Engine) Pos(p token.Pos) string {
 	}
 	return fmt.Sprintf("%s:%d", rel, pos.Line)
 }
+
+// LoopInfo lists the loops of a function (ordinal, head block, source position, phi names).
+func (e *Engine) LoopInfo(key string) []string {
+	fn := e.FuncByKey[ModulePath+"/"+key]
+	if fn == nil {
+		return []string{"not found: " + key}
+	}
+	a := &Act{fn: fn}
+	a.findLoops()
+	var out []string
+	for _, li := range a.loops {
+		var phis []string
+		pos := ""
+		for _, ins := range li.head.Instrs {
+			if phi, ok := ins.(*ssa.Phi); ok {
+				phis = append(phis, phi.Comment)
+			}
+			if pos == "" && ins.Pos().IsValid() {
+				pos = e.Pos(ins.Pos())
+			}
+		}
+		if pos == "" {
+			for b := range li.blocks {
+				for _, ins := range b.Instrs {
+					if ins.Pos().IsValid() && (pos == "" || e.Pos(ins.Pos()) < pos) {
+						pos = e.Pos(ins.Pos())
+					}
+				}
+			}
+		}
+		out = append(out, fmt.Sprintf("loop %d: block %d (%s) at %s phis=%v blocks=%d", li.ord, li.head.Index, li.head.Comment, pos, phis, len(li.blocks)))
+	}
+	return out
+}
